@@ -5,9 +5,11 @@ import json, glob, os, subprocess
 V = os.path.dirname(os.path.abspath(__file__))
 props = [json.loads(l) for l in open(f'{V}/properties.jsonl')]
 entries = {}
+accepted = set(open(f'{V}/accepted.txt').read().split())  # checks reviewed by the coordinator
 for f in sorted(glob.glob(f'{V}/h/c[0-9][0-9]/manifest_entry.json')):
     e = json.load(open(f))
-    entries[e['property_id']] = e
+    if e['property_id'] in accepted:
+        entries[e['property_id']] = e
 try:
     na = json.load(open(f'{V}/na_reasons.json'))
 except FileNotFoundError:
